@@ -33,6 +33,24 @@ for f in sorted(glob.glob(f"{ROOT}/seeded/*/meta.json")):
     tier = "quick" if m.get("check_quick_violation_lines") else ("thorough" if str(m.get("check_thorough_violation_lines")) not in ("-", "0") else "MISSED")
     note = m.get("note", "")
     out.append(f"| {m['property']} | {' '.join(m['files_changed'])} | {m.get('caught_by', m['property'])} {tier} | {note} |")
+out.append("\n### 11.6 Per-check summary (from the check modules and the last committed evidence files)\n")
+out.append("| id | engine | level | deciding monitors (REQUIRED counters) | last evidence: tier / evaluations / distinct non-trivial / wall s |\n|---|---|---|---|---|")
+import importlib, sys
+sys.path.insert(0, ROOT); sys.path.insert(0, "/repo")
+for f in sorted(glob.glob(f"{ROOT}/checks/c[0-9]*.py")):
+    pid = os.path.basename(f)[:-3].upper()
+    try:
+        m = importlib.import_module(f"checks.{pid.lower()}")
+    except Exception as e:
+        continue
+    ev = {}
+    try:
+        ev = json.load(open(f"{ROOT}/evidence/{pid}.json"))
+    except Exception:
+        pass
+    cov = ev.get("coverage", {})
+    req = ", ".join(getattr(m, "REQUIRED", [])[:8])
+    out.append(f"| {pid} | {getattr(m,'ENGINE','direct')} | {m.LEVEL} | {req} | {ev.get('tier','-')} / {cov.get('evaluations','-')} / {cov.get('distinct_nontrivial','-')} / {ev.get('wall_s','-')} |")
 block = "\n".join(out) + "\n"
 p = f"{ROOT}/DESIGN.md"
 s = open(p).read()
